@@ -635,6 +635,8 @@ func runRich(o *hx.Opts, rnd *hx.Rand, res *hx.Result) {
 		var sc *Scenario
 		if i%3 == 2 {
 			sc = genFocused(r, i, int64(o.Seed)*100003+int64(i))
+		} else if i%3 == 1 {
+			sc = genProbe(r, i, int64(o.Seed)*100003+int64(i))
 		} else {
 			sc = genRich(r, i, int64(o.Seed)*100003+int64(i))
 		}
